@@ -226,6 +226,14 @@ impl Sut {
             .map_err(s)
     }
 
+    /// the TTL variant of the validated put (one hour: as good as no expiry for a history)
+    pub fn put_with_validation_and_ttl(&self, key: &str, ck: [u8; 16], v: &[u8]) -> Result<(), String> {
+        self.rt
+            .block_on(self.cache.put_with_validation_and_ttl(Self::k(key), ContentKey::from_bytes(ck), Bytes::copy_from_slice(v), std::time::Duration::from_secs(3600)))
+            .map(|_| ())
+            .map_err(s)
+    }
+
     pub fn get_with_validation(&self, key: &str, ck: Option<[u8; 16]>) -> Result<Option<Vec<u8>>, String> {
         self.rt
             .block_on(self.cache.get_with_validation(&Self::k(key), ck.map(ContentKey::from_bytes)))
